@@ -108,6 +108,13 @@ class Recorder:
     def skip(self, why):
         self.skipped[why] += 1
 
+    def absorb(self, v):
+        """For checks that evaluate many sub-cases per case: True when the
+        violation is explained by a *listed* known finding (it is counted and
+        the check may continue with its next sub-case)."""
+        f = getattr(self, "_absorb", None)
+        return bool(f and f(v))
+
     # --- merging
     def dump(self):
         return {"evaluations": self.evaluations,
@@ -162,6 +169,7 @@ def run_case(mod, case, rec, known_keys):
     """Run one case; a failure explained by a *listed* finding is counted and
     treated as passing so the search continues."""
     rec.begin(case)
+    rec._absorb = lambda v: _absorb(mod, case, v, known_keys, rec)
     try:
         try:
             mod.check(case, rec)
@@ -179,6 +187,14 @@ def run_case(mod, case, rec, known_keys):
         rec.known_hits[key] += 1
     finally:
         rec.end()
+
+
+def _absorb(mod, case, v, known_keys, rec):
+    key = classify(mod, case, v, known_keys)
+    if key is None:
+        return False
+    rec.known_hits[key] += 1
+    return True
 
 
 def library_exception(e):
